@@ -48,7 +48,7 @@ type fileSecret struct {
 func DecodeDBFile(data []byte, kek tink.AEAD) (KV, error) {
 	var w fileWrapper
 	dec := json.NewDecoder(bytes.NewReader(data))
-	dec.DisallowUnknownFields()
+	// fields this codec does not know are ignored: the properties fix the documented ones only
 	if err := dec.Decode(&w); err != nil {
 		return nil, fmt.Errorf("wrapper: %w", err)
 	}
@@ -80,7 +80,7 @@ func DecodeDBFile(data []byte, kek tink.AEAD) (KV, error) {
 	}
 	var p filePersist
 	dec = json.NewDecoder(bytes.NewReader(clear))
-	dec.DisallowUnknownFields()
+	// fields this codec does not know are ignored: the properties fix the documented ones only
 	if err := dec.Decode(&p); err != nil {
 		return nil, fmt.Errorf("persist JSON %q: %w", clear, err)
 	}
